@@ -43,3 +43,327 @@ Proof.
     + rewrite app_nth2 by lia. rewrite Hl. rewrite app_nth2 by lia.
       rewrite nth_skipn'. f_equal. lia.
 Qed.
+
+(* ---------- fragments of one datagram ---------- *)
+
+(* [f] carries a piece of the datagram payload [P]: its bytes are the bytes of [P] at its offset
+   (so overlapping and duplicate pieces agree), and a fragment with MF clear ends where [P] ends *)
+Definition piece (P : list Z) (f : frag_in) : Prop :=
+  0 <= fi_offset f /\ fi_offset f + zlen (fi_payload f) <= zlen P /\
+  fi_payload f = f4_slice P (fi_offset f) (zlen (fi_payload f)) /\
+  (fi_mf f = false -> fi_offset f + zlen (fi_payload f) = zlen P).
+
+Lemma piece_byte P f x :
+  piece P f -> fi_offset f <= x < fi_offset f + zlen (fi_payload f) ->
+  byte_at (fi_payload f) (x - fi_offset f) = byte_at P x.
+Proof.
+  intros (Ho & Hfit & Hd & _) Hx. rewrite Hd at 1. unfold f4_slice, byte_at.
+  rewrite nth_firstn_lt by (unfold zlen in *; lia). rewrite nth_skipn'. f_equal. lia.
+Qed.
+
+(* what a slot claimed for the datagram [P] may contain: every tracked byte position lies inside
+   [P] and inside the buffer and holds [P]'s byte; the total size, if known, is [P]'s *)
+Definition slot_ok (P : list Z) (p : pasm) : Prop :=
+  asm_wf (pa_asm p) /\
+  (forall x, amem 0 (pa_asm p) x ->
+     x < zlen P /\ x < zlen (pa_buffer p) /\ byte_at (pa_buffer p) x = byte_at P x) /\
+  (pa_total p = None \/ pa_total p = Some (zlen P)).
+
+Lemma slot_ok_fresh P key buf exp : slot_ok P (mkPa key buf [] None exp).
+Proof. split; [exact I|]. split; [intros x []|]. left. reflexivity. Qed.
+
+Lemma set_total_ok P p size p1 :
+  slot_ok P p -> size = zlen P -> pa_set_total_size p size = Some p1 ->
+  slot_ok P p1 /\ pa_key p1 = pa_key p /\ pa_asm p1 = pa_asm p /\ pa_total p1 = Some (zlen P) /\
+  pa_expires p1 = pa_expires p.
+Proof.
+  intros (Hwf & Hb & Ht) -> Hs.
+  assert (Hp1 : p1 = mkPa (pa_key p) (pa_grow (pa_buffer p) (zlen P)) (pa_asm p) (Some (zlen P)) (pa_expires p)).
+  { unfold pa_set_total_size in Hs. destruct (pa_total p) as [old|].
+    - destruct (negb (old =? zlen P)); [discriminate|]. inversion Hs; reflexivity.
+    - inversion Hs; reflexivity. }
+  subst p1. cbn [pa_key pa_asm pa_total pa_expires]. repeat split; try reflexivity; cbn [pa_asm pa_buffer pa_total].
+  - exact Hwf.
+  - apply (Hb x H).
+  - rewrite zlen_grow. pose proof (Hb x H). lia.
+  - pose proof (Hb x H) as (H1 & H2 & H3). rewrite byte_at_grow; [exact H3|].
+    pose proof (amem_lower 0 _ x Hwf H). lia.
+  - right. reflexivity.
+Qed.
+
+Lemma set_total_some P p :
+  slot_ok P p -> exists p1, pa_set_total_size p (zlen P) = Some p1.
+Proof.
+  intros (_ & _ & [Ht | Ht]); unfold pa_set_total_size; rewrite Ht; [eexists; reflexivity|].
+  rewrite Z.eqb_refl. cbn [negb]. eexists; reflexivity.
+Qed.
+
+Lemma add_ok P n p f :
+  slot_ok P p -> piece P f ->
+  let p2 := pa_add n p (fi_payload f) (fi_offset f) in
+  slot_ok P p2 /\ pa_key p2 = pa_key p /\ pa_total p2 = pa_total p /\ pa_expires p2 = pa_expires p /\
+  pa_asm p2 = fst (asm_add n (pa_asm p) (fi_offset f) (zlen (fi_payload f))).
+Proof.
+  intros (Hwf & Hb & Ht) Hpc. pose proof Hpc as (Ho & Hfit & Hd & Hmf). cbv zeta.
+  unfold pa_add. cbn [pa_key pa_total pa_expires pa_asm pa_buffer].
+  split; [|repeat split; reflexivity].
+  set (off := fi_offset f) in *. set (data := fi_payload f) in *.
+  pose proof (zlen_nonneg data) as Hdl.
+  assert (Hg : off + zlen data <= zlen (pa_grow (pa_buffer p) (off + zlen data))) by (rewrite zlen_grow; lia).
+  unfold slot_ok. cbn [pa_asm pa_buffer pa_total].
+  (* the tracked set afterwards: unchanged, or the union *)
+  assert (Hasm : asm_wf (fst (asm_add n (pa_asm p) off (zlen data))) /\
+                 forall x, amem 0 (fst (asm_add n (pa_asm p) off (zlen data))) x ->
+                           amem 0 (pa_asm p) x \/ off <= x < off + zlen data).
+  { destruct (asm_add n (pa_asm p) off (zlen data)) as (l', ok) eqn:Hadd. cbn [fst]. destruct ok.
+    - destruct (add_ok_spec n _ off (zlen data) l' Hwf Ho Hdl Hadd) as (-> & _).
+      destruct (add_unb_spec (pa_asm p) off (zlen data) Hwf Ho Hdl) as (Hw' & Hm).
+      split; [exact Hw'|]. intros x Hx. apply Hm in Hx. replace (0 + off) with off in Hx by lia. exact Hx.
+    - unfold asm_add in Hadd. destruct (zlen data =? 0); [discriminate|].
+      destruct (asm_add_go _ _ _ _); [discriminate|]. inversion Hadd; subst.
+      split; [exact Hwf|]. intros x Hx. left. exact Hx. }
+  destruct Hasm as (Hwf' & Hmem).
+  split; [exact Hwf'|]. split; [|exact Ht].
+  intros x Hx. pose proof (amem_lower 0 _ x Hwf' Hx) as Hx0.
+  rewrite write_length by lia. rewrite zlen_grow.
+  rewrite byte_at_write by lia.
+  destruct ((off <=? x) && (x <? off + zlen data)) eqn:Hin.
+  - assert (Hr : off <= x < off + zlen data) by lia.
+    split; [lia|]. split; [lia|]. apply (piece_byte P f x Hpc Hr).
+  - destruct (Hmem x Hx) as [Hold | Hnew]; [|lia].
+    destruct (Hb x Hold) as (H1 & H2 & H3). split; [exact H1|]. split; [lia|].
+    rewrite byte_at_grow by lia. exact H3.
+Qed.
+
+(* assemble on a slot of [P]: nothing, or exactly [P] *)
+Lemma assemble_ok P p :
+  slot_ok P p ->
+  (pa_assemble p = (p, None) /\ pa_is_complete p = false) \/
+  (pa_assemble p = (pa_reset p, Some P) /\ pa_is_complete p = true).
+Proof.
+  intros (Hwf & Hb & Ht). unfold pa_assemble. destruct (pa_is_complete p) eqn:Hc; [|left; split; reflexivity].
+  right. split; [|reflexivity]. unfold pa_is_complete in Hc.
+  destruct (pa_total p) as [t|] eqn:Htot; [|discriminate].
+  destruct Ht as [Ht | Ht]; [discriminate|]. inversion Ht; subst t. clear Ht.
+  f_equal. f_equal.
+  assert (Hpk : asm_peek_front (pa_asm p) = zlen P) by lia. clear Hc.
+  destruct (Z.eq_dec (zlen P) 0) as [Hz | Hnz].
+  - rewrite Hz. cbn. unfold zlen in Hz. destruct P; [reflexivity | cbn in Hz; lia].
+  - (* the front contig covers [0, |P|) *)
+    assert (Hcov : forall x, 0 <= x < zlen P -> amem 0 (pa_asm p) x).
+    { intros x Hx. unfold asm_peek_front in Hpk. destruct (pa_asm p) as [|c r]; [pose proof (zlen_nonneg P); lia|].
+      destruct (c_hole c =? 0) eqn:Hh; [|pose proof (zlen_nonneg P); lia].
+      cbn [amem]. left. unfold c_total. lia. }
+    pose proof (zlen_nonneg P) as HP0.
+    assert (Hlen : zlen P <= zlen (pa_buffer p)).
+    { destruct (Hb (zlen P - 1) (Hcov (zlen P - 1) ltac:(lia))) as (_ & H & _). lia. }
+    apply (nth_ext _ _ 0 0).
+    + rewrite firstn_length. unfold zlen in *. lia.
+    + intros i Hi. rewrite firstn_length in Hi.
+      rewrite nth_firstn_lt by lia.
+      destruct (Hb (Z.of_nat i) (Hcov (Z.of_nat i) ltac:(unfold zlen in *; lia))) as (_ & _ & H).
+      unfold byte_at in H. rewrite Nat2Z.id in H. exact H.
+Qed.
+
+Lemma reset_fresh p : pa_key (pa_reset p) = None /\ pa_asm (pa_reset p) = [] /\ pa_total (pa_reset p) = None.
+Proof. repeat split. Qed.
+
+(* ---------- the slot set ---------- *)
+
+Lemma fkey_eqb_eq a b : fkey_eqb a b = true <-> a = b.
+Proof.
+  destruct a as (((a1, a2), a3), a4), b as (((b1, b2), b3), b4). unfold fkey_eqb.
+  rewrite !andb_true_iff, !Z.eqb_eq. split.
+  - intros (((-> & ->) & ->) & ->). reflexivity.
+  - intros H; inversion H; subst. repeat split.
+Qed.
+
+Lemma has_key_iff k p : pa_has_key k p = true <-> pa_key p = Some k.
+Proof.
+  unfold pa_has_key. destruct (pa_key p) as [k'|]; [|split; discriminate].
+  rewrite fkey_eqb_eq. split; [intros ->; reflexivity | intros H; inversion H; reflexivity].
+Qed.
+
+Lemma is_free_iff p : pa_is_free p = true <-> pa_key p = None.
+Proof. unfold pa_is_free. destruct (pa_key p); split; congruence. Qed.
+
+(* per-slot invariant relative to the datagram [P] sent under key [k]: free slots are fresh, a
+   slot claimed for [k] is consistent with [P] *)
+Definition slot_inv (k : fkey) (P : list Z) (p : pasm) : Prop :=
+  (pa_key p = None -> pa_asm p = [] /\ pa_total p = None) /\
+  (pa_key p = Some k -> slot_ok P p).
+
+Definition set_ok (k : fkey) (P : list Z) (s : paset) : Prop := Forall (slot_inv k P) s.
+
+Lemma update_length : forall s i p, length (pas_update s i p) = length s.
+Proof. induction s as [|q s IH]; intros [|i] p; cbn; try reflexivity; rewrite IH; reflexivity. Qed.
+
+Lemma update_nth : forall s i p d, (i < length s)%nat -> nth i (pas_update s i p) d = p.
+Proof.
+  induction s as [|q s IH]; intros [|i] p d Hi; cbn in *; try lia; [reflexivity|]. apply IH. lia.
+Qed.
+
+Lemma update_nth_other : forall s i j p d, i <> j -> nth j (pas_update s i p) d = nth j s d.
+Proof.
+  induction s as [|q s IH]; intros [|i] [|j] p d Hij; cbn; try reflexivity; try congruence.
+  apply IH. congruence.
+Qed.
+
+Lemma update_Forall (Q : pasm -> Prop) : forall s i p, Forall Q s -> Q p -> Forall Q (pas_update s i p).
+Proof.
+  induction s as [|q s IH]; intros [|i] p Hs Hp; cbn; try constructor; inversion Hs; subst; auto.
+Qed.
+
+Lemma Forall_nth_pa (Q : pasm -> Prop) s i : Forall Q s -> (i < length s)%nat -> Q (nth i s pa_new).
+Proof. intros H Hi. rewrite Forall_forall in H. apply H. apply nth_In. exact Hi. Qed.
+
+(* the scan of get(): the result is the caller's fallback, or a slot that has the key or is free *)
+Lemma pas_find_spec k : forall s i0 e j,
+  pas_find k s i0 e = Some j ->
+  e = Some j \/
+  ((i0 <= j < i0 + length s)%nat /\
+   (pa_key (nth (j - i0) s pa_new) = Some k \/ pa_key (nth (j - i0) s pa_new) = None)).
+Proof.
+  induction s as [|p s IH]; intros i0 e j H; cbn [pas_find] in H; [left; exact H|].
+  destruct (pa_has_key k p) eqn:Hk.
+  - inversion H; subst j. right. split; [cbn; lia|]. rewrite Nat.sub_diag. cbn. left. apply has_key_iff. exact Hk.
+  - apply IH in H. destruct H as [H | (Hr & Hs)].
+    + destruct (pa_is_free p) eqn:Hf.
+      * inversion H; subst j. right. split; [cbn; lia|]. rewrite Nat.sub_diag. cbn. right. apply is_free_iff. exact Hf.
+      * left. exact H.
+    + right. split; [cbn [length]; lia|].
+      replace (j - i0)%nat with (S (j - S i0)) by lia. cbn [nth]. exact Hs.
+Qed.
+
+Lemma pas_get_spec s k exp i s1 :
+  pas_get s k exp = Some (i, s1) ->
+  (i < length s)%nat /\
+  let p0 := nth i s pa_new in
+  (pa_key p0 = Some k /\ s1 = s) \/
+  (pa_key p0 = None /\
+   s1 = pas_update s i (mkPa (Some k) (pa_buffer p0) (pa_asm p0) (pa_total p0) exp)).
+Proof.
+  unfold pas_get. destruct (pas_find k s 0 None) as [j|] eqn:Hf; [|discriminate].
+  apply pas_find_spec in Hf. destruct Hf as [Hf | (Hr & Hs)]; [discriminate|].
+  rewrite Nat.sub_0_r in Hs.
+  destruct (pa_has_key k (nth j s pa_new)) eqn:Hk; intros H; inversion H; subst i s1; clear H.
+  - split; [lia|]. left. split; [apply has_key_iff; exact Hk | reflexivity].
+  - split; [lia|]. right. split; [|reflexivity].
+    destruct Hs as [Hs | Hs]; [|exact Hs]. apply has_key_iff in Hs. congruence.
+Qed.
+
+Lemma set_total_key p size p1 : pa_set_total_size p size = Some p1 -> pa_key p1 = pa_key p.
+Proof.
+  unfold pa_set_total_size. destruct (pa_total p) as [old|].
+  - destruct (negb (old =? size)); [discriminate|]. intros H; inversion H; reflexivity.
+  - intros H; inversion H; reflexivity.
+Qed.
+
+Lemma assemble_cases p :
+  pa_assemble p = (p, None) \/ exists d, pa_assemble p = (pa_reset p, Some d).
+Proof.
+  unfold pa_assemble. destruct (pa_is_complete p); [|left; reflexivity].
+  destruct (pa_total p); [right; eexists; reflexivity | left; reflexivity].
+Qed.
+
+Lemma slot_inv_reset k P p : slot_inv k P (pa_reset p).
+Proof. split; [intros _; split; reflexivity | cbn; discriminate]. Qed.
+
+Lemma remove_expired_ok k P s t : set_ok k P s -> set_ok k P (pas_remove_expired s t).
+Proof.
+  intros H. unfold pas_remove_expired, set_ok. apply Forall_map. eapply Forall_impl; [|exact H].
+  intros p Hp. cbn. destruct (negb (pa_is_free p) && (pa_expires p <? t)); [apply slot_inv_reset | exact Hp].
+Qed.
+
+(* one received packet: the invariant is kept, and a packet of key [k] delivers nothing or [P] *)
+Lemma process_safe k P n timeout now s f :
+  set_ok k P s -> (fi_key f = k -> piece P f) ->
+  let '(s', r) := rs_process_ipv4 n timeout now s f in
+  set_ok k P s' /\ (fi_key f = k -> r = None \/ r = Some P).
+Proof.
+  intros Hs Hpc. unfold rs_process_ipv4.
+  destruct (fi_mf f || negb (fi_offset f =? 0)) eqn:Hfrag.
+  2:{ split; [exact Hs|]. intros Hk. right. f_equal.
+      apply orb_false_iff in Hfrag. destruct Hfrag as (Hmf & Ho).
+      destruct (Hpc Hk) as (_ & _ & Hd & Hlast). specialize (Hlast Hmf).
+      assert (Ho0 : fi_offset f = 0) by lia. rewrite Ho0 in *.
+      rewrite Hd. unfold f4_slice. cbn [Z.to_nat skipn]. replace (0 + zlen (fi_payload f)) with (zlen (fi_payload f)) in Hlast by lia.
+      rewrite Hlast. unfold zlen. rewrite Nat2Z.id. apply firstn_all. }
+  destruct (pas_get s (fi_key f) (now + timeout)) as [(i, s1)|] eqn:Hget.
+  2:{ split; [exact Hs|]. intros _. left. reflexivity. }
+  destruct (pas_get_spec _ _ _ _ _ Hget) as (Hi & Hcases). cbv zeta in Hcases.
+  (* the claimed slot and the set after claiming *)
+  assert (Hs1 : set_ok k P s1 /\ pa_key (nth i s1 pa_new) = Some (fi_key f) /\ length s1 = length s).
+  { destruct Hcases as [(Hk0 & ->) | (Hk0 & ->)]; [repeat split; assumption|].
+    pose proof (Forall_nth_pa _ s i Hs Hi) as (Hfresh & _). destruct (Hfresh Hk0) as (Ha & Ht).
+    split; [|split; [rewrite update_nth by exact Hi; reflexivity | apply update_length]].
+    apply update_Forall; [exact Hs|]. split; [cbn; discriminate|].
+    intros _. rewrite Ha, Ht. apply slot_ok_fresh. }
+  destruct Hs1 as (Hs1 & Hkey & Hlen).
+  set (p := nth i s1 pa_new) in *.
+  assert (Hpinv : slot_inv k P p) by (apply Forall_nth_pa; [exact Hs1 | lia]).
+  destruct (if negb (fi_mf f) then pa_set_total_size p (zlen (fi_payload f) + fi_offset f) else Some p)
+    as [p1|] eqn:Hst.
+  2:{ split; [exact Hs1|]. intros _. left. reflexivity. }
+  destruct (fkey_eqb (fi_key f) k) eqn:Hkk.
+  - (* a piece of P *)
+    apply fkey_eqb_eq in Hkk. specialize (Hpc Hkk). rewrite Hkk in Hkey.
+    pose proof (proj2 Hpinv Hkey) as Hok.
+    assert (Hok1 : slot_ok P p1 /\ pa_key p1 = Some k).
+    { destruct (fi_mf f) eqn:Hmf; cbn [negb] in Hst.
+      - inversion Hst; subst p1. split; assumption.
+      - destruct Hpc as (_ & _ & _ & Hlast). specialize (Hlast Hmf).
+        destruct (set_total_ok P p (zlen (fi_payload f) + fi_offset f) p1 Hok ltac:(lia) Hst) as (H1 & H2 & _). split; [exact H1 | congruence]. }
+    destruct Hok1 as (Hok1 & Hkey1).
+    pose proof (add_ok P n p1 f Hok1 Hpc) as Hadd. cbv zeta in Hadd.
+    destruct Hadd as (Hok2 & Hkey2 & _).
+    set (p2 := pa_add n p1 (fi_payload f) (fi_offset f)) in *.
+    destruct (assemble_ok P p2 Hok2) as [(Ha & _) | (Ha & _)]; rewrite Ha.
+    + split; [|intros _; left; reflexivity]. apply update_Forall; [exact Hs1|].
+      split; [rewrite Hkey2, Hkey1; discriminate | intros _; exact Hok2].
+    + split; [|intros _; right; reflexivity]. apply update_Forall; [exact Hs1 | apply slot_inv_reset].
+  - (* another key: the slots of [k] are not touched *)
+    assert (Hne : fi_key f <> k) by (intros H; apply fkey_eqb_eq in H; congruence).
+    assert (Hkey1 : pa_key p1 = Some (fi_key f)).
+    { destruct (negb (fi_mf f)); [rewrite (set_total_key _ _ _ Hst); exact Hkey | inversion Hst; subst; exact Hkey]. }
+    set (p2 := pa_add n p1 (fi_payload f) (fi_offset f)).
+    assert (Hkey2 : pa_key p2 = Some (fi_key f)) by exact Hkey1.
+    destruct (assemble_cases p2) as [Ha | (d & Ha)]; rewrite Ha; (split; [|intros H; congruence]).
+    + apply update_Forall; [exact Hs1|]. split; [rewrite Hkey2; discriminate|].
+      rewrite Hkey2. intros H; inversion H; congruence.
+    + apply update_Forall; [exact Hs1 | apply slot_inv_reset].
+Qed.
+
+Lemma poll_safe k P n timeout now s f :
+  set_ok k P s -> (fi_key f = k -> piece P f) ->
+  let '(s', r) := rs_poll n timeout now s f in
+  set_ok k P s' /\ (fi_key f = k -> r = None \/ r = Some P).
+Proof. intros Hs Hpc. unfold rs_poll. apply process_safe; [apply remove_expired_ok; exact Hs | exact Hpc]. Qed.
+
+Lemma set_ok_new k P slots : set_ok k P (pas_new slots).
+Proof.
+  unfold set_ok, pas_new. apply Forall_forall. intros p Hp. apply repeat_spec in Hp. subst p.
+  split; [intros _; split; reflexivity | cbn; discriminate].
+Qed.
+
+(* C12 reassembly_exact_or_nothing: any arrival history (any order, any duplicates, any times,
+   other datagrams interleaved arbitrarily) in which every packet with key [k] is a piece of [P]:
+   whatever is delivered at an arrival of key [k] is exactly [P] *)
+Lemma run_safe k P n timeout : forall arr s,
+  set_ok k P s -> Forall (fun tf => fi_key (snd tf) = k -> piece P (snd tf)) arr ->
+  Forall2 (fun tf r => fi_key (snd tf) = k -> r = None \/ r = Some P)
+          arr (snd (rs_run n timeout s arr)).
+Proof.
+  induction arr as [|(t, f) rest IH]; intros s Hs Harr; cbn [rs_run]; [constructor|].
+  inversion Harr as [|? ? Hf Hrest]; subst. cbn [snd] in Hf.
+  pose proof (poll_safe k P n timeout t s f Hs Hf) as H1.
+  destruct (rs_poll n timeout t s f) as (s1, r). destruct H1 as (Hs1 & Hr).
+  specialize (IH s1 Hs1 Hrest). destruct (rs_run n timeout s1 rest) as (s2, rs). cbn [snd] in *.
+  constructor; [exact Hr | exact IH].
+Qed.
+
+Lemma c12_reassembly_exact_or_nothing k P n timeout slots arr :
+  Forall (fun tf => fi_key (snd tf) = k -> piece P (snd tf)) arr ->
+  Forall2 (fun tf r => fi_key (snd tf) = k -> r = None \/ r = Some P)
+          arr (snd (rs_run n timeout (pas_new slots) arr)).
+Proof. apply run_safe. apply set_ok_new. Qed.
